@@ -273,6 +273,13 @@ def open_rules(facts, rep):
                 elif res == 1:
                     g2 = o[0] == "Ok" and any(x[0] == "agg" and x[1] == "adt:Aes" and dict(x[3]).get("vendor_version", ("",))[0] == "field" for x in walk(o[1]))
                     rows["pw,aes:accept"] = g2 if rows["pw,aes:accept"] in (None, True) else False
+    # no password for an AES entry: refused with InvalidPassword on every such path -- never handed out as plaintext
+    rows["nopw,aes:reject"] = None
+    for p in ps:
+        if decided(p, A_P) == 0 and decided(p, A_A) == 1:
+            o = outcome(p)
+            g = o[0] == "Ok" and o[1] is not None and o[1][0] == "agg" and o[1][1] == "adt:Err" and not called(p, r"AesReader|ZipCryptoReader")
+            rows["nopw,aes:reject"] = g if rows["nopw,aes:reject"] in (None, True) else False
     for k, v in rows.items():
         ok &= rep.check(v is True, rule, "table:%s" % k, where(m, m.span), k, "make_crypto_reader row '%s' does not hold (%s)" % (k, v))
     va = facts.one(r"^aes::AesReader::<R>::validate$")
